@@ -16,6 +16,7 @@ import json
 import os
 import re
 import shutil
+import signal
 import subprocess
 import sys
 import tempfile
@@ -76,6 +77,31 @@ CONFIG = {
 }
 
 
+LIVE_GROUPS = set()
+
+
+def kill_group(pgid):
+    """Kill what is left of a shard's process group (orphaned CLI runs of a hanging tree)."""
+    try:
+        os.killpg(pgid, signal.SIGKILL)
+    except (ProcessLookupError, PermissionError, OSError):
+        pass
+    LIVE_GROUPS.discard(pgid)
+
+
+def _kill_all_groups(*_a):
+    for g in list(LIVE_GROUPS):
+        kill_group(g)
+
+
+atexit.register(_kill_all_groups)
+
+
+def _on_term(signum, frame):
+    _kill_all_groups()
+    sys.exit(2)
+
+
 def env_for_go():
     e = dict(os.environ)
     e.update(GOENV)
@@ -87,8 +113,19 @@ def log(*a):
 
 
 def run(cmd, env=None, timeout=None, cwd=ROOT):
-    return subprocess.run(cmd, cwd=cwd, env=env, timeout=timeout,
-                          stdout=subprocess.PIPE, stderr=subprocess.STDOUT, text=True, errors="replace")
+    """subprocess.run in a process group of its own that is killed afterwards (see kill_group)."""
+    p = subprocess.Popen(cmd, cwd=cwd, env=env, stdout=subprocess.PIPE, stderr=subprocess.STDOUT, text=True,
+                         errors="replace", start_new_session=True)
+    LIVE_GROUPS.add(p.pid)
+    try:
+        out, _ = p.communicate(timeout=timeout)
+    except subprocess.TimeoutExpired as ex:
+        kill_group(p.pid)
+        out, _ = p.communicate()
+        raise subprocess.TimeoutExpired(cmd, timeout, output=(ex.output or "") if isinstance(ex.output, str) else out)
+    finally:
+        kill_group(p.pid)
+    return subprocess.CompletedProcess(cmd, p.returncode, out, None)
 
 
 def build(prop, overlay=None, race=False):
@@ -279,6 +316,8 @@ def run_fuzz(prop, target, scratch, extra, overlay, execs):
 
 
 def main():
+    signal.signal(signal.SIGTERM, _on_term)
+    signal.signal(signal.SIGINT, _on_term)
     ap = argparse.ArgumentParser()
     ap.add_argument("prop", nargs="?")
     ap.add_argument("--tier", default=os.environ.get("VERIF_TIER", "quick"), choices=["quick", "thorough"])
@@ -402,8 +441,11 @@ def drive(prop, cfg, tier, seed, binary, extra, scratch, args, t0, vmerge):
         crumb = os.path.join(scratch, "crumb%d.json" % sh)
         logf = open(os.path.join(scratch, "log%d.txt" % sh), "w")
         e = child_env(prop, tier, seed, sh, nshards, out, crumb, extra)
+        # every shard is the leader of its own process group: whatever it started (CLI runs, race
+        # children) is killed with it when it is done, however it ended
         p = subprocess.Popen([binary, "-test.run", args.run, "-test.timeout", "%ds" % guard, "-test.v"],
-                             cwd=scratch, env=e, stdout=logf, stderr=subprocess.STDOUT)
+                             cwd=scratch, env=e, stdout=logf, stderr=subprocess.STDOUT, start_new_session=True)
+        LIVE_GROUPS.add(p.pid)
         procs.append((sh, p, out, crumb, logf))
     deadline = time.time() + guard + 60
     frags = []
@@ -414,6 +456,7 @@ def drive(prop, cfg, tier, seed, binary, extra, scratch, args, t0, vmerge):
             p.kill()
             p.wait()
             infra.append("shard %d exceeded the wall-clock guard of %d s (inconclusive)" % (sh, guard))
+        kill_group(p.pid)
         logf.close()
         text = open(logf.name, errors="replace").read()
         if os.path.exists(out):
